@@ -578,6 +578,10 @@ structure HCOut (K : Type) where
   /-- friction vector (part of the force on body 2) -/
   fric : V3 K
   vtangent : V3 K
+  /-- Hertz force `fH`, approach speed `vnormal`, combined dissipation `c` -/
+  fH : K
+  vnormal : K
+  cdiss : K
 
 /-- body of the loop in `HuntCrossleyForceImpl::calcForce` for one `PointContact`;
 `F1`,`F2` are what is applied to the bodies of surface 1 and surface 2 -/
@@ -601,7 +605,7 @@ def hcContact (sqrt : K → K) (transitionVelocity : K) (h : HCContact K) : HCOu
   let vnormal := dot v normal
   let vtangent := v - smul vnormal normal
   let f := fH * (1 + 3 / 2 * c * vnormal)
-  if f ≤ 0 then ⟨SpF.zero, SpF.zero, pe, 0, V3.zero, vtangent⟩ else
+  if f ≤ 0 then ⟨SpF.zero, SpF.zero, pe, 0, V3.zero, vtangent, fH, vnormal, c⟩ else
   let force0 := smul f normal
   let vslip := sqrt (normSq vtangent)
   let fric : V3 K :=
@@ -614,7 +618,7 @@ def hcContact (sqrt : K → K) (transitionVelocity : K) (h : HCContact K) : HCOu
       divS (smul ffriction vtangent) vslip
     else V3.zero
   let force := force0 + fric
-  ⟨applyForceToBodyPoint h.X1 station1 (-force), applyForceToBodyPoint h.X2 station2 force, pe, f, fric, vtangent⟩
+  ⟨applyForceToBodyPoint h.X1 station1 (-force), applyForceToBodyPoint h.X2 station2 force, pe, f, fric, vtangent, fH, vnormal, c⟩
 
 /-- contributions `(body, spatial force)` of the whole contact list — the loop as the property requires it:
 every contact contributes independently (`continue`, not `return`, when `f <= 0`) -/
@@ -657,6 +661,9 @@ structure EFOut (K : Type) where
   fric : V3 K
   forceDir : V3 K
   vtangent : V3 K
+  /-- displacement `x` and its rate `vnormal` (relative velocity along the displacement direction) -/
+  x : K
+  vnormal : K
 
 /-- one displaced spring: `nearestPoint` (Ground) on the other object, `springPosInGround`, `area` (already
 scaled by `areaScale`); body 1 carries the mesh -/
@@ -664,7 +671,7 @@ def efSpring (sqrt : K → K) (transitionVelocity : K) (param : EFParams K) (are
     (nearestPoint springPosInGround : V3 K) (X1 X2 : Pose K) (V1 V2 : Vel K) : EFOut K :=
   let displacement := nearestPoint - springPosInGround
   let distance := sqrt (normSq displacement)
-  if ¬ (distance < 0) ∧ ¬ (0 < distance) then ⟨SpF.zero, SpF.zero, 0, 0, V3.zero, V3.zero, V3.zero⟩ else
+  if ¬ (distance < 0) ∧ ¬ (0 < distance) then ⟨SpF.zero, SpF.zero, 0, 0, V3.zero, V3.zero, V3.zero, distance, 0⟩ else
   let forceDir := divS displacement distance
   let station1 := X1.invApply nearestPoint
   let station2 := X2.invApply nearestPoint
@@ -684,7 +691,7 @@ def efSpring (sqrt : K → K) (transitionVelocity : K) (param : EFParams K) (are
     else V3.zero
   let force := force0 + fric
   ⟨applyForceToBodyPoint X1 station1 force, applyForceToBodyPoint X2 station2 (-force),
-   param.stiffness * area * normSq displacement / 2, (if 0 < f then f else 0), fric, forceDir, vtangent⟩
+   param.stiffness * area * normSq displacement / 2, (if 0 < f then f else 0), fric, forceDir, vtangent, distance, vnormal⟩
 
 /-- documented (ElasticFoundationForce.h): `f = k*a*x*(1+c*v)` along the displacement direction -/
 def docEFForce (k a x c v : K) : K := k * a * x * (1 + c * v)
@@ -866,6 +873,11 @@ def expNormal (exp : K → K) (d0 d1 d2 kvNorm maxNormalForce pz vz : K) : ExpOu
 
 /-- documented (ExponentialSpringForce.h): `fz = d₁exp(−d₂(pz−d₀)) (1 − cz vz)` -/
 def docExpNormal (exp : K → K) (d0 d1 d2 cz pz vz : K) : K := d1 * exp (-(d2 * (pz - d0))) * (1 - cz * vz)
+
+/-- `ExponentialSpringForceImpl::calcForce`, application: `f_G` on the body at its station, `−f_G` on Ground at the
+station's Ground location (`ground.applyForceToBodyPoint(state, p_G, -f_G)`); Ground's pose is the identity -/
+def expSpringApply (X : Pose K) (station f_G : V3 K) : SpF K × SpF K :=
+  (applyForceToBodyPoint X station f_G, applyAt (X.apply station) (-f_G))
 
 /-- station height and normal speed: `p_P = ~X_GP * p_G`, `v_P = ~R_GP * v_G` -/
 def expStationKin (X_GP X : Pose K) (V : Vel K) (station : V3 K) : K × K :=
